@@ -363,6 +363,25 @@ pub fn explore(ctx: &LeafCtx, tier: &str, reps: &[&Report; 5]) {
             a.set4(BH, h(&pre[..pre.len() - 28]));
             push("header-without-digest".into(), a);
         }
+        // limb-pair aliases of the transfer count: the same weighted sum (x0*2^32 + x1,
+        // x0 + x1*2^32, or x0 + x1) expressed by other limbs, in the nullifier's copy, in the
+        // leaf's copy, or in both, everything derived from them re-derived. A binding that
+        // compares a recomposed value instead of the limbs accepts one of them.
+        {
+            let two32: i128 = 1 << 32;
+            let addp = |x: u64, d: i128| -> u64 { (x as i128 + d).rem_euclid(crate::cx::P as i128) as u64 };
+            for (l, d0, d1) in [("x0-1,x1+2^32", -1, two32), ("x0+1,x1-2^32", 1, -two32), ("x0+2^32,x1-1", two32, -1), ("x0-2^32,x1+1", -two32, 1), ("x0+1,x1-1", 1, -1), ("x0-1,x1+1", -1, 1)] {
+                for (wl, offs) in [("nullifier copy", vec![TCN]), ("leaf copy", vec![TCL]), ("both copies", vec![TCN, TCL])] {
+                    let mut a = base.clone();
+                    for o in offs {
+                        a.v[o] = addp(base.v[o], d0);
+                        a.v[o + 1] = addp(base.v[o + 1], d1);
+                    }
+                    a.recompute(&[]);
+                    push(format!("count-limbs-alias({l}; {wl})"), a);
+                }
+            }
+        }
         // nullifier / account recipes
         let sec = base.v[SECN..SECN + 4].to_vec();
         let tc = base.v[TCN..TCN + 2].to_vec();
